@@ -282,7 +282,12 @@ class LRI(dict):
             self._init_ll()
 
     def copy(self):
-        return self.__class__(max_size=self.max_size, values=self)
+        with self._lock:
+            # copy the ring (oldest first) instead of reading self[k] in dict
+            # order: no lookups are counted, nothing moves in the source and
+            # the copy evicts in the same order as the source
+            return self.__class__(max_size=self.max_size,
+                                  values=self._get_flattened_ll()[1:])
 
     def setdefault(self, key, default=None):
         with self._lock:
